@@ -139,6 +139,14 @@ func (idx *hybridSearchIndex) AddWithID(id uint32, vector []float32, text string
 func (idx *hybridSearchIndex) addInternal(id uint32, vector []float32, text string, metadata map[string]interface{}) error {
 	info := &documentInfo{}
 
+	// Reject a document the metadata index cannot store before any sub-index is
+	// touched, so that a failed Add leaves every index unchanged
+	if _, ok := idx.metadataIndex.(*RoaringMetadataIndex); ok && len(metadata) > 0 {
+		if err := validateMetadata(metadata); err != nil {
+			return fmt.Errorf("failed to add to metadata index: %w", err)
+		}
+	}
+
 	// Add to vector index
 	if idx.vectorIndex != nil && vector != nil && len(vector) > 0 {
 		vectorNode := NewVectorNodeWithID(id, vector)
@@ -151,6 +159,7 @@ func (idx *hybridSearchIndex) addInternal(id uint32, vector []float32, text stri
 	// Add to text index
 	if idx.textIndex != nil && text != "" {
 		if err := idx.textIndex.Add(id, text); err != nil {
+			idx.rollbackAdd(id, info)
 			return fmt.Errorf("failed to add to text index: %w", err)
 		}
 		info.hasText = true
@@ -160,6 +169,7 @@ func (idx *hybridSearchIndex) addInternal(id uint32, vector []float32, text stri
 	if idx.metadataIndex != nil && metadata != nil && len(metadata) > 0 {
 		metadataNode := NewMetadataNodeWithID(id, metadata)
 		if err := idx.metadataIndex.Add(*metadataNode); err != nil {
+			idx.rollbackAdd(id, info)
 			return fmt.Errorf("failed to add to metadata index: %w", err)
 		}
 		info.hasMetadata = true
@@ -168,6 +178,17 @@ func (idx *hybridSearchIndex) addInternal(id uint32, vector []float32, text stri
 	idx.docInfo[id] = info
 
 	return nil
+}
+
+// rollbackAdd undoes the sub-index additions of a document whose Add failed part-way.
+// Must be called with idx.mu held.
+func (idx *hybridSearchIndex) rollbackAdd(id uint32, info *documentInfo) {
+	if info.hasVector && idx.vectorIndex != nil {
+		idx.vectorIndex.Remove(*NewVectorNodeWithID(id, nil))
+	}
+	if info.hasText && idx.textIndex != nil {
+		idx.textIndex.Remove(id)
+	}
 }
 
 // Remove removes a document from all indexes.
